@@ -220,6 +220,10 @@ def r4_use_syntax(ctx, rep):
     only_tail = rx.full(use_stmt.TAILS[", only: list"], re.IGNORECASE)
     w = rx.subset_witness(only_tail, O)
     rep.ob("ONLY_RE accepts every `, only: list` tail", w is None, "" if w is None else f"`{w}` not recognised as ONLY", py.nloc(onode), witness=w)
+    w = rx.subset_witness(rx.full(r"\s*,\s*only\s*:", re.IGNORECASE), O)
+    rep.ob("ONLY_RE accepts the empty `, only:` tail", w is None,
+           "`use m, only:` imports nothing" if w is None else
+           f"`{w}` is not recognised as ONLY: `use m{w}` is treated as a plain USE and imports every public entity", py.nloc(onode), witness=w)
     ren_tail = rx.full(use_stmt.TAILS[", rename-list"], re.IGNORECASE)
     w = rx.disjoint_witness(ren_tail, O)
     rep.ob("ONLY_RE rejects every rename-only tail", w is None, "" if w is None else f"`{w}` is a rename list taken for ONLY", py.nloc(onode), witness=w)
